@@ -13,23 +13,41 @@ from ..ops_ext import module_params
 def params_by_shape(it, modv):
     """Map role -> (attr name, VTens) from the shapes the constructor gave the parameters."""
     roles = {}
+    # the module's own sizes name the roles (hidden = the module's num_hidden, whatever symbol the constructor bound to it)
+    from ..ops import dim_of
+
+    def size(attr, default):
+        v = modv.inst.attrs.get(attr) if isinstance(modv, VObj) else None
+        d = dim_of(v) if v is not None else None
+        return d if isinstance(d, (str, int)) and d != "?" else default
+
+    nv_, nh_, na_ = size("num_visible", "nv"), size("num_hidden", "nh"), size("num_aux", "na")
     for n, p in module_params(it, modv):
         s = p.shape
         role = None
-        if s == ("nh", "nv"):
+        if s == (nh_, nv_):
             role = "W"
-        elif s == ("na", "nv"):
+        elif s == (na_, nv_):
             role = "U"
-        elif s == ("nv",):
+        elif s == (nv_,):
             role = "b"
-        elif s == ("nh",):
+        elif s == (nh_,):
             role = "c"
-        elif s == ("na",):
+        elif s == (na_,):
             role = "d"
         if role is None or role in roles:
             raise Unsupported("parameter %s has unexpected/duplicate shape %s" % (n, s))
         roles[role] = (n, p)
     return roles
+
+
+def mod_dim(modv, attr, default):
+    """Dimension symbol bound to a size attribute of a module instance (num_visible / num_hidden / num_aux)."""
+    from ..ops import dim_of
+
+    v = modv.inst.attrs.get(attr) if isinstance(modv, VObj) else None
+    d = dim_of(v) if v is not None else None
+    return d if isinstance(d, (str, int)) and d != "?" else default
 
 
 def role_terms(it, modv):
